@@ -51,6 +51,20 @@ def run_node_default(node: NodeBase[NodeResultT], **kwargs: t.Any) -> t.Type[Nod
     return get_instance(node).get_default(**kwargs)
 
 
+def _run_in_executor(run_method: t.Callable, /, *args: t.Any, **kwargs: t.Any) -> t.Any:
+    """
+    Call the node's method in a pool worker.
+
+    StopIteration cannot be set on the future that carries the result back to the event loop: the awaiting task
+    would never be woken up. It is converted the same way the interpreter does it for a coroutine.
+    """
+
+    try:
+        return run_method(*args, **kwargs)
+    except StopIteration as ex:
+        raise RuntimeError('node raised StopIteration') from ex
+
+
 async def run_node(node: NodeBase[NodeResultT], *args: t.Any, node_id: NodeId, **kwargs: t.Any) -> t.Type[NodeResultT]:
     """
     Run a node in a specific way according to the node's tags
@@ -83,7 +97,7 @@ async def run_node(node: NodeBase[NodeResultT], *args: t.Any, node_id: NodeId, *
 
         result = await loop.run_in_executor(
             executor,
-            functools.partial(run_method, *args, **kwargs),
+            functools.partial(_run_in_executor, run_method, *args, **kwargs),
         )
 
     return result
